@@ -95,6 +95,8 @@ def build_inputs(tier, rng, limit_depth):
         import c02
         drivers = sorted(c02.DRIVERS)
     for dn in drivers:
+        # the driver must be a well-formed statement at small depth, else deep nesting of it is not a limit violation
+        inputs.append({"id": "depthprobe:%s" % dn, "sql": depth_driver(dn, 4), "class": "any", "big": True})
         for d in ([limit_depth + 60] if nq else [limit_depth + 3, limit_depth + 60, 4 * limit_depth]):
             inputs.append({"id": "depth:%s@%d" % (dn, d), "sql": depth_driver(dn, d), "class": "limit:depth", "big": True})
     inputs.append({"id": "size+1", "gen": {"kind": "size", "n": 10485761}, "class": "limit:size"})
@@ -154,9 +156,28 @@ def oracle(o, ep):
     return bad
 
 
-def attribute(an, ob, kind):
+def reach_from(an, i):
+    """construction sites reachable from a node through kept and text-only flows"""
+    memo = an.setdefault("_reach", {})
+    if i in memo:
+        return memo[i]
+    seen, st = set(), [i]
+    while st:
+        x = st.pop()
+        if x in seen or x not in an["byid"]:
+            continue
+        seen.add(x)
+        st += an["byid"][x]["inner"] + an["byid"][x]["dropped"]
+    memo[i] = seen
+    return seen
+
+
+def attribute(an, ob, kind, stage=None, epname=None):
     """table sites that can have produced the offending element of an observation"""
     ch = ob.get("chain") or []
+    root = errflow.ep_node(an, epname) if epname else None
+    within = reach_from(an, root) if root is not None else None
+    pkg = {"lexical": "pkg/sql/tokenizer", "grammar": "pkg/sql/parser", "convert": "pkg/sql/parser"}.get(stage)
     if kind in ("family", "undocumented_code", "empty_message", "location", "limit_code"):
         el = [c for c in ch if c["k"] == 0][:1]
     elif kind == "cause_unreachable":
@@ -167,7 +188,11 @@ def attribute(an, ob, kind):
         el = []
     out = set()
     for e in el:
-        out |= set(errflow.sites_matching(an, e))
+        out |= set(i for i in errflow.sites_matching(an, e) if (pkg is None or an["byid"][i]["pkg"] == pkg) and (within is None or i in within))
+    if kind == "cause_unreachable":
+        rw = [i for i in out if an["byid"][i]["kind"] == "rewrapv"]   # the element that folded another error into its text
+        if rw:
+            return sorted(rw)
     return sorted(out)
 
 
@@ -182,6 +207,8 @@ def run_sweep(inputs, timeout=2400):
 
 def run(tier):
     rp = Report("C13", tier)
+    import shutil
+    shutil.rmtree(os.path.join(common.REPLAYS, "C13"), ignore_errors=True)
     try:
         with common.Lock():
             static = common.stage_gotables()
@@ -223,6 +250,14 @@ def run(tier):
                       "explanation": "the harness process died on this input (fatal error in an entry point)"}, "crash_%s" % crashed["id"])
     byid = {o["id"]: o for o in outs}
     srcs = {i["id"]: i for i in wit + inputs}
+    unusable = []
+    for o in outs:
+        if o["id"].startswith("depth:"):
+            pr = byid.get("depthprobe:" + o["id"][6:].split("@")[0])
+            if pr is None or pr["stage"] != "accepted":
+                o["class"] = "any"
+                unusable.append(o["id"])
+    rp.cov["depth_drivers_unusable"] = sorted(set(u[6:].split("@")[0] for u in unusable))
     viol_seen, known_seen = {}, {}
     reached, shapes = set(), {}
     rejected = 0
@@ -249,7 +284,7 @@ def run(tier):
             for kind, detail in oracle(o, ep):
                 if kind == "panic":
                     continue   # crashes are C01's subject; counted in evidence
-                cand = attribute(an, ob, kind)
+                cand = attribute(an, ob, kind, o["stage"], ep["name"])
                 X = xrw if kind == "cause_unreachable" else xfam
                 if cand and all(c in X for c in cand):
                     for c in cand:
@@ -295,13 +330,18 @@ def run(tier):
     pairs = sorted(shapes)
     py_bad = [pr for pr in pairs if not errflow.produces(an, pr[0], list(pr[1]))]
     coq_bad, coq_ok = None, None
-    if pairs and ok_inst:
+    if pairs:
+        bysh = {}
+        for i, sh in pairs:
+            bysh.setdefault(sh, []).append(i)
+        shl = sorted(bysh)
         body = ("From Coq Require Import List NArith Bool.\nFrom GV Require Import Model.ErrFlow Gen.ErrSites.\nImport ListNotations.\nLocal Open Scope N_scope.\n"
-                "Definition cases : list (N * oshape) :=\n  [%s].\n" % ";\n   ".join("(%d, %s)" % (i, errflow.coq_shape(sh)) for i, sh in pairs) +
-                "Definition bad := Eval vm_compute in bad_cases (fun c : N * oshape => produces err_table 40 (fst c) (snd c)) 0 cases.\nPrint bad.\n")
+                "Definition cases : list (oshape * list N) :=\n  [%s].\n" % ";\n   ".join("(%s, [%s])" % (errflow.coq_shape(sh), "; ".join(str(i) for i in bysh[sh])) for sh in shl) +
+                "Definition bad := Eval vm_compute in bad_cases (shape_case_ok err_table) 0 cases.\nPrint bad.\n")
         coq_ok, out, err = common.coq_cases("c13_shapes", body)
         if coq_ok:
-            coq_bad = [pairs[i] for i in common.parse_nlist(out)]
+            coq_bad = [(i, shl[j]) for j in common.parse_nlist(out) for i in bysh[shl[j]] if not errflow.produces(an, i, list(shl[j]))] or \
+                      [(bysh[shl[j]][0], shl[j]) for j in common.parse_nlist(out)]
             rp.obligation("correspondence: %d distinct observed (entry point, chain shape) pairs derivable in the model (vm_compute)" % len(pairs), not coq_bad,
                           "" if not coq_bad else str(coq_bad[:3]))
         else:
